@@ -5,7 +5,7 @@ import "verif/sa/core"
 // Props lists, per claimed property, the rules that decide its structural clauses.
 func Props() []core.PropSpec {
 	return []core.PropSpec{
-		{ID: "C18", Rules: []string{"W1", "W2", "W3", "W4"},
+		{ID: "C18", Rules: []string{"W1", "W2", "W3", "W4", "W5"},
 			Explanation: "Static wiring check: every Config field / setter / exported option constant is followed by object identity through its constant chain to one canonical bit; decides that each switch reaches its own bit and no other. Does not decide the value-level 'and no other effect'.",
 			Assumptions: []string{"linux/amd64 build configuration (thorough: also arm64)", "option semantics below the bit consumers are not decided"}},
 	}
